@@ -9,9 +9,9 @@ class ScriptInapplicable(Exception):
 
 class Scripted(RandomState):
     """RandomState whose uniform()/shuffle()/choice() follow callbacks; everything else is real."""
-    def __init__(self, seed=0, uniform=None, shuffle=None, choice=None, on_shuffle=None):
+    def __init__(self, seed=0, uniform=None, shuffle=None, choice=None, on_shuffle=None, mvn=None):
         super().__init__(seed)
-        self._u = uniform; self._s = shuffle; self._c = choice; self._on = on_shuffle
+        self._u = uniform; self._s = shuffle; self._c = choice; self._on = on_shuffle; self._m = mvn
         self.log = []
 
     def uniform(self, low=0.0, high=1.0, size=None):
@@ -33,3 +33,10 @@ class Scripted(RandomState):
         if self._c is None:
             return super().choice(a, size, replace, p)
         return self._c(a, size, replace, p)
+
+    def multivariate_normal(self, mean, cov, size=None, *a, **k):
+        self.log.append(("multivariate_normal", [float(x) for x in numpy.asarray(mean).ravel()],
+                         [float(x) for x in numpy.asarray(cov).ravel()], size))
+        if self._m is None:
+            return super().multivariate_normal(mean, cov, size, *a, **k)
+        return self._m(mean, cov, size)
